@@ -395,8 +395,15 @@ impl<'a> Checker<'a> {
             if de.is_some() {
                 self.opt("top_element", i, guard(|| Some(x.top_element(h))), de.map(|d| t.v[d].h));
             }
-        } else if let Some(te) = self.top_element(i) {
-            self.opt("top_element", i, guard(|| Some(x.top_element(h))), Some(te));
+        } else {
+            // only a document node has a document element, whatever children another node has
+            self.checks += 1;
+            if let Ok(Ok(g)) = guard(|| x.document_element(h)) {
+                self.fail("document_element", i, format!("returned Ok({}) for a node that is not a document", crate::driver::describe(x, g)));
+            }
+            if let Some(te) = self.top_element(i) {
+                self.opt("top_element", i, guard(|| Some(x.top_element(h))), Some(te));
+            }
         }
     }
 
